@@ -29,6 +29,19 @@ for d in sorted(glob.glob('/verif/seeded/C*_*')):
     verdict = 'VIOLATION' if viol else ('UNDECIDED' if und else ('exit %d' % p.returncode))
     meta['detected_by'] = dict(check=f'./vcheck {pid} (quick)', exit=p.returncode, verdict=verdict, violations=sigs, obligations_not_discharged=[x for x in nd if '@threshold-stop' not in x and 'centerer_.transform(K_VV)' not in x and 'VoronoiFPS' not in x][:8],
                                undecided=[u[:160] for u in und[:3]])
+    if not viol:
+        # the change is filed under this property but may be decided by the check of a related property (refit histories are C09's subject)
+        other = {}
+        for q in ['C09', 'C08', 'C01']:
+            if q == pid: continue
+            p2 = subprocess.run(['./vcheck', q], cwd='/verif', env=env, capture_output=True, text=True)
+            v2 = [l for l in p2.stdout.splitlines() if l.startswith('VIOLATION')]
+            if v2:
+                nd2 = [l.strip()[len('not discharged:'):].strip()[:140] for l in p2.stdout.splitlines() if l.strip().startswith('not discharged:')]
+                other = dict(check=f'./vcheck {q} (quick)', exit=p2.returncode, verdict='VIOLATION', n_violation_lines=len(v2),
+                             obligations_not_discharged=[x for x in nd2 if 'VoronoiFPS' not in x and '@threshold-stop' not in x][:6])
+                break
+        meta['detected_by']['related_check'] = other or None
     json.dump(meta, open(os.path.join(d, 'meta.json'), 'w'), indent=1)
     rows.append((os.path.basename(d), verdict, len(viol), len(nd)))
     print(rows[-1], flush=True)
